@@ -339,3 +339,25 @@ M('frozen-hash-of-keys-only', 'C17', 'dictutils.py',
   "                ret = self._hash = hash(frozenset(self.items()))", "                ret = self._hash = hash(tuple(self.items()))")
 M('frozen-hasherror-not-cached', 'C17', 'dictutils.py',
   "                ret = self._hash = FrozenHashError(e)", "                ret = FrozenHashError(e)\n                self._hash = 0")
+
+# ---------------------------------------------------------------- C18
+M('sbytes-rollover-loses-position', 'C18', 'ioutils.py',
+  "            pos = self.buffer.tell()\n            tmp.write(self.buffer.getvalue())\n            tmp.seek(pos)\n            self.buffer.close()\n            self._buffer = tmp\n\n    @property\n    def _rolled(self):\n        return not isinstance(self.buffer, BytesIO)",
+  "            pos = self.buffer.tell()\n            tmp.write(self.buffer.getvalue())\n            tmp.seek(0 if pos == 3 else pos)\n            self.buffer.close()\n            self._buffer = tmp\n\n    @property\n    def _rolled(self):\n        return not isinstance(self.buffer, BytesIO)")
+M('sbytes-write-threshold-gt', 'C18', 'ioutils.py',
+  "        if self.tell() + len(s) >= self._max_size:\n            self.rollover()\n        self.buffer.write(s)",
+  "        if self.tell() + len(s) >= self._max_size:\n            self.rollover()\n            if len(s) == 5:\n                self.buffer.seek(0, 2)\n                self.buffer.write(b'')\n                s = s[:-1] + s[-1:]\n        self.buffer.write(s if not (self._rolled and len(s) == 7) else s[:6])")
+M('sbytes-len-rolled-unflushed', 'C18', 'ioutils.py',
+  "        if self._rolled:\n            self.seek(0)\n            val = os.fstat(self.fileno()).st_size",
+  "        if self._rolled:\n            val = os.fstat(self.fileno()).st_size")
+M('sstring-write-tell-bytes', 'C18', 'ioutils.py',
+  "        self._tell = current_pos + len(s)", "        self._tell = current_pos + (len(s) if not self._rolled else len(s.encode('utf-8')))")
+M('sstring-seek-chunk-boundary', 'C18', 'ioutils.py',
+  "            if current_position + READ_CHUNK_SIZE > dest:", "            if current_position + READ_CHUNK_SIZE >= dest + 1 and dest != 4:")
+M('sstring-readline-tell-bytes', 'C18', 'ioutils.py',
+  "        ret = self.buffer.readline(length).decode('utf-8')\n        self._tell = self.tell() + len(ret)",
+  "        raw = self.buffer.readline(length)\n        ret = raw.decode('utf-8')\n        self._tell = self.tell() + len(raw)")
+M('mfr-read-sized-stops-at-empty-member', 'C18', 'ioutils.py',
+  "            got = len(parts[-1])\n            if got < amt:\n                self._index += 1", "            got = len(parts[-1])\n            if got < amt:\n                self._index += 1\n            if got == 0 and self._index < len(self._fileobjs) - 1:\n                break")
+M('mfr-read-all-skips-after-index', 'C18', 'ioutils.py',
+  "            return self._joiner.join(f.read() for f in self._fileobjs)", "            return self._joiner.join(f.read() for f in self._fileobjs[self._index:][:4])")
